@@ -31,31 +31,17 @@ theorem decSigList_cons_ok {x : Wire} {xs : List Wire} {l : List SigV}
       x = .arr .imm ys ∧ decSigFields ys = .ok v ∧ sigOfVal v = some s ∧
       decSigList xs = .ok r ∧ l = s :: r := by
   unfold decSigList at h
-  have hone : ∀ a, (match x with | .arr .imm ys => decSigFields ys | _ => Out.err .other) = .ok a →
-      ∃ ys, x = .arr .imm ys ∧ decSigFields ys = .ok a := by
-    intro a ha
-    split at ha
-    · exact ⟨_, rfl, ha⟩
-    · cases ha
-  generalize (match x with | .arr .imm ys => decSigFields ys | _ => Out.err .other) = one at h hone
-  cases one with
-  | ok a =>
-    cases hr : decSigList xs with
-    | ok r =>
-      simp only [hr] at h
-      cases hs : sigOfVal a with
-      | some s =>
-        simp only [hs] at h
-        cases h
-        obtain ⟨ys, hx, hf⟩ := hone a rfl
-        exact ⟨ys, a, s, r, hx, hf, hs, rfl, rfl⟩
-      | none => simp [hs] at h
-    | err e => simp [hr] at h
-    | panic => simp [hr] at h
-    | unmodelled => simp [hr] at h
-  | err e => simp at h
-  | panic => simp at h
-  | unmodelled => cases hr : decSigList xs <;> simp [hr] at h
+  simp only [] at h
+  split at h
+  · rename_i a r hone hr
+    split at h
+    · rename_i s hs
+      cases h
+      split at hone
+      · exact ⟨_, a, s, r, rfl, hone, hs, hr, rfl⟩
+      · cases hone
+    · cases h
+  all_goals cases h
 
 /-- a 3-array accepted by `decSigFields`, read as a signer entry -/
 theorem sigElem_of_fields {ys : List Wire} {v : GoVal} {s : SigV}
@@ -126,50 +112,28 @@ theorem sign_unmarshal_ok {b : Bytes} {m : SignMsg} (h : Sign.unmarshal b = .ok 
       cases hpl : decByteString pl with
       | ok payload =>
         simp only [hpl, Out.bind_ok] at h
-        have hitems : ∀ items,
-            (match sgs with
-              | .arr _ xs => Out.ok xs
-              | .prim .imm 22 => Out.ok []
-              | .prim .imm 23 => Out.ok []
-              | _ => Out.err .other) = .ok items →
-            items = [] ∨ ∃ hws, sgs = .arr hws items := by
-          intro items hi
-          split at hi
-          · cases hi; exact .inr ⟨_, rfl⟩
-          · cases hi; exact .inl rfl
-          · cases hi; exact .inl rfl
-          · cases hi
-        generalize (match sgs with
-              | .arr _ xs => Out.ok xs
-              | .prim .imm 22 => Out.ok []
-              | .prim .imm 23 => Out.ok []
-              | _ => Out.err .other) = its at h hitems
-        cases its with
-        | ok items =>
-          simp only [Out.bind_ok] at h
-          by_cases hemp : items.isEmpty = true
+        split at h
+        · rename_i _ hws items
+          simp only [Out.bind_ok, List.isEmpty_iff] at h
+          by_cases hemp : items = []
           · simp [hemp] at h
-          · simp only [hemp, Bool.false_eq_true, if_false] at h
-            rcases hitems items rfl with rfl | ⟨hws, rfl⟩
-            · simp at hemp
-            · cases hs : decSigList items with
-              | ok sigs =>
-                cases hh : decHeaders p u with
-                | ok hd =>
-                  simp only [hs, hh, Out.bind_ok] at h
-                  cases h
-                  refine ⟨r, hw, hws, p, u, pl, items, rfl, hpt, rfl, ?_, hs, hh⟩
-                  rintro rfl
-                  simp at hemp
-                | err e => simp [hs, hh] at h
-                | panic => simp [hs, hh] at h
-                | unmodelled => simp [hs, hh] at h
-              | err e => simp [hs] at h
-              | panic => simp [hs] at h
-              | unmodelled => simp [hs] at h
-        | err e => simp at h
-        | panic => simp at h
-        | unmodelled => simp at h
+          · simp only [hemp, if_false] at h
+            cases hs : decSigList items with
+            | ok sigs =>
+              cases hh : decHeaders p u with
+              | ok hd =>
+                simp only [hs, hh, Out.bind_ok] at h
+                cases h
+                exact ⟨r, hw, hws, p, u, pl, items, rfl, hpt, hpl, hemp, hs, hh⟩
+              | err e => simp [hs, hh] at h
+              | panic => simp [hs, hh] at h
+              | unmodelled => simp [hs, hh] at h
+            | err e => simp [hs] at h
+            | panic => simp [hs] at h
+            | unmodelled => simp [hs] at h
+        · simp at h
+        · simp at h
+        · simp at h
       | err e => simp [hpl] at h
       | panic => simp [hpl] at h
       | unmodelled => simp [hpl] at h
@@ -238,3 +202,115 @@ theorem decoded_no_empty_signature (b : Bytes) (m : SignMsg) (h : Sign.unmarshal
   exact hne (List.eq_nil_of_length_eq_zero hlen.symm)
 
 end C11
+
+/-! ### C09 — re-encoding -/
+namespace C09
+
+/-- content of a byte-string item (`[]` for anything else) -/
+def sigContent : Wire → Bytes
+  | .bstr _ c => c
+  | _ => []
+
+/-- what the encoder emits for a decoded signer entry whose wire form was the 3-array `x`: head
+    `83`, both header items of `x` verbatim, the signature content under the shortest head -/
+def reSig : Wire → Bytes
+  | .arr _ [p, u, sg] => 0x83 :: (p.bytes ++ (u.bytes ++ encBstr (sigContent sg)))
+  | _ => []
+
+/-- the modelling side condition on a COSE_Sign value: every header map of the body and of every
+    signer lies in the region whose encoding the model mirrors -/
+def SignModelled (m : SignMsg) : Prop :=
+  (GoVal.modelledPairs m.h.p = true ∧ GoVal.modelledPairs m.h.u = true) ∧
+  ∀ s ∈ m.sigs, GoVal.modelledPairs s.h.p = true ∧ GoVal.modelledPairs s.h.u = true
+
+/-- the shape of a decoded signer entry, with its signature content -/
+theorem sigElem_shape {x : Wire} {s : SigV} (h : C05.SigElem x s) :
+    ∃ p u hw c, x = .arr .imm [p, u, .bstr hw c] ∧ c ≠ [] ∧ s.sig = some c ∧
+      decProtected p = .ok s.h.p ∧ decUnprot u = .ok s.h.u ∧ ensureIV s.h.p s.h.u = true ∧
+      s.h.rawP = some p.bytes ∧ s.h.rawU = some u.bytes := by
+  obtain ⟨p, u, sg, rfl, hp, hu, hiv, hrp, hru, hsg, hz⟩ := h
+  obtain ⟨hw, c, rfl, hc, hs⟩ := Accept.wfsig_of_dec hsg hz
+  exact ⟨p, u, hw, c, rfl, hc, hs, hp, hu, hiv, hrp, hru⟩
+
+theorem blen_some_ne {c : Bytes} (hc : c ≠ []) : blen (some c) ≠ 0 := by
+  cases c with
+  | nil => exact absurd rfl hc
+  | cons x xs => simp [blen]
+
+/-- per signer: encoding the decoded entry gives `reSig` of its wire form -/
+theorem sigElem_marshal {x : Wire} {s : SigV} (h : C05.SigElem x s)
+    (hm : GoVal.modelledPairs s.h.p = true ∧ GoVal.modelledPairs s.h.u = true) :
+    Signature.marshal s = .ok (reSig x) := by
+  obtain ⟨p, u, hw, c, rfl, hc, hs, hp, hu, hiv, hrp, hru⟩ := sigElem_shape h
+  have hz : blen s.sig ≠ 0 := by rw [hs]; exact blen_some_ne hc
+  rw [signature_marshal_of_decoded hrp hru hiv hz hm, hs]
+  rfl
+
+/-- all signers: the concatenation the encoder emits -/
+theorem marshalSigs_of_decoded : ∀ (xs : List Wire) (l : List SigV), decSigList xs = .ok l →
+    (∀ s ∈ l, GoVal.modelledPairs s.h.p = true ∧ GoVal.modelledPairs s.h.u = true) →
+    marshalSigs l = .ok (xs.map reSig).flatten
+  | [], l, h, _ => by
+    rw [C05.decSigList_nil] at h
+    cases h
+    rfl
+  | x :: xs, l, h, hm => by
+    obtain ⟨s, r, hel, hr, rfl⟩ := C05.decSigList_cons_elem h
+    have h1 := sigElem_marshal hel (hm s (List.mem_cons_self ..))
+    have h2 := marshalSigs_of_decoded xs r hr (fun t ht => hm t (List.mem_cons_of_mem _ ht))
+    simp [marshalSigs, h1, h2]
+
+/-- encoding a decoded COSE_Sign, in terms of the items the decoder saw -/
+theorem sign_marshal_of_decoded {m : SignMsg} {p u : Wire} {sgs : List Wire}
+    (hh : decHeaders p u = .ok m.h) (hne : sgs ≠ []) (hs : decSigList sgs = .ok m.sigs)
+    (hm : SignModelled m) :
+    Sign.marshal m = .ok (0xd8 :: 0x62 :: 0x84 :: (p.bytes ++ (u.bytes ++
+      (optBytesEnc m.payload ++ (encHead 4 m.sigs.length ++ (sgs.map reSig).flatten))))) := by
+  obtain ⟨-, -, hiv, hrp, hru⟩ := decHeaders_ok hh
+  have h1 := hdrs_marshal_verbatim hrp hru hiv hm.1
+  have h2 := marshalSigs_of_decoded sgs m.sigs hs hm.2
+  have hlen := (C05.decSigList_ok sgs m.sigs hs).1
+  have hemp : m.sigs.isEmpty = false := by
+    cases hl : m.sigs with
+    | nil =>
+      rw [hl] at hlen
+      exact absurd (List.eq_nil_of_length_eq_zero hlen.symm) hne
+    | cons a r => rfl
+  simp [Sign.marshal, hemp, h1, h2]
+
+/-- 4. decoding then encoding a COSE_Sign reproduces BOTH header buckets of the body (`p.bytes`,
+    `u.bytes`) AND of every signer (inside `reSig`) byte for byte — they are the input's own
+    sub-slices; tag, outer array head (`84`) and each signer's array head (`83`) are the ones
+    the decoder required; the output differs from the input at most in the heads of the payload,
+    of each signature byte string and of the signatures array (all re-emitted shortest) -/
+theorem reencode_sign (b : Bytes) (m : SignMsg) (hd : Sign.unmarshal b = .ok m)
+    (hm : (GoVal.modelledPairs m.h.p = true ∧ GoVal.modelledPairs m.h.u = true) ∧
+      ∀ s ∈ m.sigs, GoVal.modelledPairs s.h.p = true ∧ GoVal.modelledPairs s.h.u = true) :
+    ∃ (p u pl : Wire) (hws : HW) (sgs : List Wire),
+      b = 0xd8 :: 0x62 :: (Wire.arr .imm [p, u, pl, .arr hws sgs]).bytes ∧
+      Sign.marshal m = .ok (0xd8 :: 0x62 :: 0x84 :: (p.bytes ++ (u.bytes ++
+        (optBytesEnc m.payload ++ (encHead 4 m.sigs.length ++ (sgs.map reSig).flatten))))) ∧
+      (Wire.arr .imm [p, u, pl, .arr hws sgs]).wf = true ∧
+      (Wire.arr .imm [p, u, pl, .arr hws sgs]).inLimits false 0 = true ∧
+      m.h.rawP = some p.bytes ∧ m.h.rawU = some u.bytes ∧
+      ((m.payload = none ∧ pl.bytes = [0xf6]) ∨
+        ∃ (w : HW) (c : Bytes), m.payload = some c ∧ pl.bytes = headBytes 2 w c.length ++ c) ∧
+      sgs ≠ [] ∧ m.sigs.length = sgs.length ∧
+      ∀ i (h1 : i < sgs.length) (h2 : i < m.sigs.length),
+        ∃ (pi ui : Wire) (wi : HW) (ci : Bytes),
+          sgs[i] = .arr .imm [pi, ui, .bstr wi ci] ∧ ci ≠ [] ∧
+          m.sigs[i].h.rawP = some pi.bytes ∧ m.sigs[i].h.rawU = some ui.bytes ∧
+          m.sigs[i].sig = some ci ∧
+          reSig sgs[i] = 0x83 :: (pi.bytes ++ (ui.bytes ++ encBstr ci)) := by
+  obtain ⟨hws, p, u, pl, sgs, hb, -, hwf, -, hlim, hpl, hh, hne, hs⟩ :=
+    C05.sign_accept_envelope_full hd
+  obtain ⟨-, -, -, hrp, hru⟩ := decHeaders_ok hh
+  obtain ⟨hlen, hidx⟩ := C05.decSigList_ok sgs m.sigs hs
+  refine ⟨p, u, pl, hws, sgs, hb, sign_marshal_of_decoded hh hne hs hm, hwf, hlim, hrp, hru,
+    item_bytes hpl, hne, hlen, ?_⟩
+  intro i h1 h2
+  obtain ⟨pi, ui, wi, ci, hx, hc, hsi, -, -, -, hrpi, hrui⟩ :=
+    sigElem_shape (x := sgs[i]) (s := m.sigs[i]) (hidx i h1 h2)
+  exact ⟨pi, ui, wi, ci, hx, hc, hrpi, hrui, hsi, by rw [hx]; rfl⟩
+
+end C09
